@@ -47,6 +47,9 @@ func Boot(mode string, k *plan.Knobs) error {
 		if err == nil {
 			log.SetOutput(f)
 		}
+		if os.Getenv("SIM_LOG_LEVEL") == "debug" {
+			log.SetLevel(log.DebugLevel)
+		}
 	} else {
 		log.SetOutput(io.Discard)
 	}
